@@ -26,7 +26,8 @@ MANIFEST = dict(
           "protocol (successor read before the yield): extracting the string just handed out never ends or derails the iteration "
           "(iteration_survives_extract, from C01's cut witness), for the other editing calls only under a frame hypothesis "
           "(iteration_survives_framed_edits_partial; run differentially). CONFIGURATION: a Tag subclass's own "
-          "MAIN_CONTENT_STRING_TYPES (subclass_main), pickling (pickle_keeps_config), "
+          "MAIN_CONTENT_STRING_TYPES (subclass_main), pickling (pickle_keeps_config, unpickle_builder_truth_value), falsy builder objects "
+          "(falsy_builder_is_a_builder), refused parse attempts (rejected_attempts_leave_no_container_open), "
           "TreeBuilder's string_containers option (omitted / dict incl. empty / None), Tag.__init__ with and without a builder, new_tag, "
           "Tag.copy_self, BeautifulSoup.copy_self, copies of trees, nested containers (config_option, tag_init_cases, "
           "empty_config_all_ordinary, builderless_tag_counts_main, copy_same_text, soup_copy_root_from_builder, "
@@ -40,12 +41,16 @@ MANIFEST = dict(
           "whitespace-preserving, and void elements as containers: text before, inside and after such elements, nested and re-opened, "
           "against the nearest-open-container rule and against C03's machine run with builderCfg) and hand-set "
           "interesting_string_types, Tag/BeautifulSoup subclasses overriding MAIN_CONTENT_STRING_TYPES (element_classes), copies, "
-          "pickle round trips under every configuration, ask-edit-ask sequences, real edit histories against the pointer-heap model, "
+          "builder OBJECTS of the harness (falsy ones defining __len__/__bool__; ones whose prepare_markup offers candidates that are "
+          "refused after their events were sent, with string containers still open - BeautifulSoup.__init__'s retry loop, against "
+          "C03's parseLoop run with builderCfg), pickle round trips under every configuration, ask-edit-ask sequences, real edit histories against the pointer-heap model, "
           "iterations of .strings/_all_strings in which the consumer edits each string as it is handed out (extract, decompose, "
           "replace_with, insert_before/after, wrap) against the generator-protocol mirror and the snapshot oracle; against the Lean mirrors, the Lean evaluator "
           "and an independent Python evaluator over .contents (object identity of the yielded strings included)."),
     design="7/C13",
-    note=("Edits in the tree streams are single-argument API calls; the heap stream uses heapsim's histories (all fourteen calls, "
+    note=("Known finding C13-unpickle-falsy-builder (re-observed each run, witness theorem unpickle_falsy_builder_witness, repair "
+          "fixes/C13-unpickle-falsy-builder.diff): __setstate__ swaps a falsy builder object for a default one. "
+          "Edits in the tree streams are single-argument API calls; the heap stream uses heapsim's histories (all fourteen calls, "
           "multi-argument included). types=() is the default sentinel itself (CPython's empty tuple is a singleton) and is read as "
           "'default'. Recorded behaviours, modelled but outside the property's quantifier: NavigableString._all_strings yields "
           "nothing for an empty string even without strip; a string receiver's default selection is NavigableString+CData whatever "
@@ -114,9 +119,59 @@ def E():
     class SoupCountingDoctypes(bs4.BeautifulSoup):
         MAIN_CONTENT_STRING_TYPES = {el.NavigableString, el.Doctype}
         _verif_main = ("NavigableString", "Doctype")
+    from bs4.builder import HTMLParserTreeBuilder, ParserRejectedMarkup
+    REJECT = "\x00VERIF-REFUSE"
+
+    class HarnessBuilder(HTMLParserTreeBuilder):
+        """a user's builder object: `retry` = extra candidates prepare_markup() offers BEFORE the real document, each a prefix of
+        it that the parser then refuses — html.parser itself on an unknown marked section ("marked"), or this builder's feed()
+        after sending the prefix's events ("feed") — so BeautifulSoup.__init__'s retry loop abandons attempts with whatever
+        elements still open. Subclasses below are legal but FALSY objects."""
+        def __init__(self, *a, retry=(), **kw):
+            super().__init__(*a, **kw)
+            self.retry = [tuple(x) for x in retry]
+            self.docs = 0
+            self.refused = 0
+            self.accepted_text = None
+
+        def prepare_markup(self, markup, *a, **kw):
+            for cand in super().prepare_markup(markup, *a, **kw):
+                text = cand[0]
+                for cut, mech in self.retry:
+                    prefix = text[:cut]
+                    yield (prefix + ("<![verif[ x ]]>" if mech == "marked" else REJECT),) + tuple(cand[1:])
+                yield cand
+
+        def feed(self, markup):
+            if isinstance(markup, str) and markup.endswith(REJECT):
+                super().feed(markup[:-len(REJECT)])
+                self.refused += 1
+                raise ParserRejectedMarkup("harness builder: candidate refused after its events were sent")
+            try:
+                super().feed(markup)
+            except ParserRejectedMarkup:
+                self.refused += 1
+                raise
+            self.accepted_text = markup
+            self.docs += 1
+
+    class FalsyBoolBuilder(HarnessBuilder):
+        def __bool__(self):
+            return False
+
+    class EmptyLenBuilder(HarnessBuilder):
+        def __len__(self):
+            return 0
+
+    class CountingLenBuilder(HarnessBuilder):
+        """len() = documents built so far: falsy exactly while its first document is parsed"""
+        def __len__(self):
+            return self.docs
+    builders = [HarnessBuilder, FalsyBoolBuilder, EmptyLenBuilder, CountingLenBuilder]
+    _E["builders"] = {"retry": HarnessBuilder, "bool": FalsyBoolBuilder, "len0": EmptyLenBuilder, "lencount": CountingLenBuilder}
     tagsubs = [TagCountingComments, TagOnlyComments, SoupCountingDoctypes]
     # make every harness class picklable by reference (pickle round trips of documents are part of the check)
-    for k in subs + tagsubs:
+    for k in subs + tagsubs + builders:
         k.__module__ = __name__
         k.__qualname__ = k.__name__
         globals()[k.__name__] = k
@@ -558,11 +613,47 @@ def gen_op(r, soup, label):
     return ("smooth",)
 
 
+BUILDER_OPTIONS = ("string_containers", "preserve_whitespace_tags")
+
+
+def make_soup(recipe, kwargs, markup=None):
+    """construct the document: through the feature string, or — recipe["builder"] = {"kind": retry|bool|len0|lencount,
+    "retry": [[cut, mech], …]} — through a builder OBJECT of the harness (extra refused candidates, falsy truth value)"""
+    e = E()
+    ctor = config_ctor(recipe["config"])
+    markup = recipe["markup"] if markup is None else markup
+    b = recipe.get("builder")
+    if not b:
+        return ctor(markup, "html.parser", **kwargs)
+    bopts = {k: v for k, v in kwargs.items() if k in BUILDER_OPTIONS}
+    rest = {k: v for k, v in kwargs.items() if k not in BUILDER_OPTIONS}
+    builder = e["builders"][b["kind"]](retry=b.get("retry", ()), **bopts)
+    for _ in range(b.get("warm_docs", 0)):      # a reusable builder that has already built documents
+        ctor("<p>earlier</p>", builder=builder, **rest)
+    soup = ctor(markup, builder=builder, **rest)
+    if builder.accepted_text != markup:
+        raise PoisonedAccepted()
+    return soup
+
+
+class PoisonedAccepted(Exception):
+    """the parser did not refuse a candidate the harness meant to be refused (e.g. the cut fell inside <script> text): the tree
+    is not the document's; the case is skipped, not judged"""
+
+
+def after_parse_failures(soup, sc):
+    """once a document has been built, plain new strings are plain again (nothing of the parse — not even of refused
+    attempts — is remembered): soup.new_string() gives a NavigableString"""
+    c = E()["cls"]
+    got = type(soup.new_string("x"))
+    return [] if got is c["NavigableString"] else [("new_string", got.__name__, "NavigableString")]
+
+
 def build(recipe):
     """recipe -> soup with the expected interesting types recorded on every tag"""
     e = E()
     kwargs, sc = config_containers(recipe["config"])
-    soup = config_ctor(recipe["config"])(recipe["markup"], "html.parser", **kwargs)
+    soup = make_soup(recipe, kwargs)
     for t in all_nodes(soup):
         if is_tag(t):
             set_exp(t, exp_for(t, sc))
@@ -1090,7 +1181,7 @@ class Batch:
                                 ctx.violation(f"Lean {'code-mirror' if mode == 'run' else 'evaluator'} and implementation disagree",
                                               case={"op": "query", "recipe": recipe, "path": list(path), "query": qd},
                                               observed=real, expected=want, model=a, stream=stream + "-correspondence",
-                                              no_failing_input=(real == want))
+                                              no_failing_input=(real == want), kf=classify(recipe, qd) if real != want else None)
         self.lines, self.meta = [], []
 
 
@@ -1160,8 +1251,17 @@ def check_tree(ctx, batch, recipe, soup, sc, stream, plan, tree_id):
         batch.flush()
 
 
-def classify(recipe, qd):
-    """known-finding classifier: none is known for C13"""
+FALSY_WHEN_PICKLED = ("bool", "len0")   # lencount has built a document by then: truthy
+
+
+def classify(recipe, qd=None):
+    """known-finding classifier, from the case itself.
+    C13-unpickle-falsy-builder: the document was built with a builder OBJECT that is falsy at pickling time and the tree under
+    test is the result of a pickle round trip (__setstate__ swaps a falsy builder for a default one)."""
+    b = (recipe or {}).get("builder")
+    post = (recipe or {}).get("post")
+    if b and b.get("kind") in FALSY_WHEN_PICKLED and post and post[0] == "pickle":
+        return "C13-unpickle-falsy-builder"
     return None
 
 
@@ -1231,7 +1331,7 @@ def check_ancestor_rule(ctx, recipe, soup, sc, stream):
         if sum(1 for v in ctx.violations if v["stream"] == stream + "-ancestor-rule") < 4:
             ctx.violation("a parsed string does not have the class of its nearest string-container ancestor",
                           case={"op": "ancestor-rule", "recipe": recipe}, expected=[b[2] for b in bad],
-                          observed=[b[:2] for b in bad], stream=stream + "-ancestor-rule")
+                          observed=[b[:2] for b in bad], stream=stream + "-ancestor-rule", kf=classify(recipe))
 
 
 MAL_TOKENS = ["<pre>", "</pre>", "<pre>", "</pre>", "<br>", "<br/>", "<hr>", "<p>", "</p>", "<b>", "</b>", "<i a='1'>", "</i>", "<script>", "</script>", "<style>", "</style>", "<template>",
@@ -1269,6 +1369,27 @@ def stream_malformed(ctx, batch, n_docs):
         check_tree(ctx, batch, recipe, soup, sc, "malformed", random_plan(r, 2), 3_000_000 + di)
 
 
+def rand_builder_flavour(r, markup, sc):
+    """a builder object instead of the feature string: falsy ones, and ones that offer refused candidates first — cut where a
+    string container (or any element) is open"""
+    kind = r.choice(("retry", "retry", "bool", "len0", "lencount", "lencount"))
+    b = {"kind": kind}
+    if kind == "lencount" and r.random() < 0.4:
+        b["warm_docs"] = r.choice((1, 2))
+    if markup and (kind == "retry" or r.random() < 0.4):
+        cuts = []
+        opens = [m.end() for nm in sc for m in __import__("re").finditer(f"<{nm}>", markup)]
+        for _ in range(r.choice((1, 1, 2, 3))):
+            if opens and r.random() < 0.7:
+                cut = r.choice(opens)
+                cut = min(len(markup), cut + r.choice((0, 0, 1, 3)))
+            else:
+                cut = r.randrange(len(markup) + 1)
+            cuts.append([cut, r.choice(("feed", "feed", "marked"))])
+        b["retry"] = cuts
+    return b
+
+
 def stream_random(ctx, batch, n_trees):
     e = E()
     live_names = list(e["live_containers"])
@@ -1282,11 +1403,28 @@ def stream_random(ctx, batch, n_trees):
         else:
             markup, exp = gen_markup(r, sc, live_names)
         recipe = {"markup": markup, "config": cfg, "ops": []}
-        soup, sc = build(recipe)
+        if r.random() < 0.3:
+            recipe["builder"] = rand_builder_flavour(r, markup, sc)
+        try:
+            soup, sc = build(recipe)
+        except PoisonedAccepted:
+            ctx.count("builder:poisoned-candidate-not-refused")
+            del recipe["builder"]
+            soup, sc = build(recipe)
         ctx.count("tree:config-" + cfg)
+        if "builder" in recipe:
+            ctx.count("builder:" + recipe["builder"]["kind"] + ("+retry" if recipe["builder"].get("retry") else ""))
+            for _cut, mech in recipe["builder"].get("retry", ()):
+                ctx.count("builder:refused-by-" + mech)
+            bad = after_parse_failures(soup, sc)
+            ctx.case(None)
+            if bad and sum(1 for v in ctx.violations if v["stream"] == "after-parse") < 4:
+                ctx.violation("after the document was built, soup.new_string() does not make a plain NavigableString (something of the "
+                              "parse, or of a refused attempt, is still open)", case={"op": "after-parse", "recipe": dict(recipe)},
+                              expected="NavigableString", observed=bad[0][1], stream="after-parse")
         if markup:
-            check_parse_classes(ctx, {"markup": markup, "config": cfg, "ops": []}, soup, exp)
-            check_ancestor_rule(ctx, {"markup": markup, "config": cfg, "ops": []}, soup, sc, "random-trees")
+            check_parse_classes(ctx, dict(recipe), soup, exp)
+            check_ancestor_rule(ctx, dict(recipe), soup, sc, "random-trees")
         nops = 0 if (markup and style < 0.45) else r.choice((1, 2, 3, 5, 8, 12))
         if not markup:
             nops = r.choice((4, 8, 12, 16))
@@ -1302,7 +1440,7 @@ def stream_random(ctx, batch, n_trees):
         check_tree(ctx, batch, recipe, soup, sc, "random-trees", random_plan(r, 4), ti)
         if r.random() < 0.3:
             # ask, edit, ask again: the answers after the edits must not remember the answers before them
-            recipe3 = {"markup": recipe["markup"], "config": cfg, "ops": list(recipe["ops"]), "warm": len(recipe["ops"])}
+            recipe3 = dict(recipe, ops=list(recipe["ops"]), warm=len(recipe["ops"]))
             soup3, sc3 = build(dict(recipe3, warm=None))
             warm_up(soup3)
             for k in range(r.choice((1, 2, 3))):
@@ -1358,7 +1496,7 @@ def stream_random(ctx, batch, n_trees):
                 if bad and sum(1 for v in ctx.violations if v["stream"] == "copies-config") < 4:
                     ctx.violation("a copied BeautifulSoup object does not keep the string_containers configuration (new_tag on the copy)",
                                   case={"op": "copy-config", "recipe": recipe2}, expected=[b[2] for b in bad], observed=[b[:2] for b in bad],
-                                  stream="copies-config")
+                                  stream="copies-config", kf=classify(recipe2))
 
 
 def stream_positions(ctx, batch):
@@ -1505,7 +1643,8 @@ def stream_config(ctx):
     params = [("omit", None), ("N", None), ("o5", c["Comment"]), ("m5", {c["Comment"]}), ("m-", ()), ("m0.9", [c["NavigableString"], c["Script"]])]
     names = sorted(set(ORD_TAGS + list(PROP_CONTAINERS) + list(e["live_containers"]) + ["[document]", "noscript", "SCRIPT", "Script",
                                                                                           "STYLE", "\u017fcript", "scr\u0131pt", ""]))
-    for bcls, prop_dflt in ((HTMLParserTreeBuilder, PROP_CONTAINERS), (TreeBuilder, {})):
+    for bcls, prop_dflt in ((HTMLParserTreeBuilder, PROP_CONTAINERS), (TreeBuilder, {}), (e["builders"]["bool"], PROP_CONTAINERS),
+                            (e["builders"]["len0"], PROP_CONTAINERS), (e["builders"]["lencount"], PROP_CONTAINERS)):
         live_dflt = bcls.DEFAULT_STRING_CONTAINERS
         for argname, arg in [("U", "omit"), ("N", None)] + [("D", d) for d in custom]:
             try:
@@ -1532,7 +1671,7 @@ def stream_config(ctx):
             btok = "BN" if got_sc is None else "B:" + sc_tok(got_sc)
             eff = None if got_sc is None else {k: v.__name__ for k, v in got_sc.items()}
             soup = None
-            if bcls is HTMLParserTreeBuilder:
+            if issubclass(bcls, HTMLParserTreeBuilder):
                 try:
                     soup = e["BeautifulSoup"]("", builder=b)
                     if got_sc is None:
@@ -1546,13 +1685,16 @@ def stream_config(ctx):
                 try:
                     up = pickle.loads(pickle.dumps(soup))
                     got_up = up.builder.string_containers
-                    lines.append(f"c13 pickledsc {1 if b.picklable else 0} {sc_tok(live_dflt)} {'N' if got_sc is None else 'D:' + sc_tok(got_sc)}")
+                    truthy = bool(b)
+                    lines.append(f"c13 pickledsc {1 if b.picklable else 0} {sc_tok(live_dflt)} {'N' if got_sc is None else 'D:' + sc_tok(got_sc)} "
+                                 f"{1 if truthy else 0} {sc_tok(HTMLParserTreeBuilder.DEFAULT_STRING_CONTAINERS)}")
                     real.append("none" if got_up is None else "some " + sc_tok(got_up))
                     cases.append({"op": "config", "what": "pickle", "builder": bcls.__name__, "arg": argname})
-                    ctx.case(("PICKLE", argtok))
+                    ctx.case(("PICKLE", bcls.__name__, argtok))
                     if got_up != got_sc:
                         ctx.violation("a pickled and unpickled document lost its builder's string_containers configuration", case=cases[-1],
-                                      expected=sc_tok(got_sc), observed=sc_tok(got_up), stream="config")
+                                      expected=sc_tok(got_sc), observed=sc_tok(got_up), stream="config",
+                                      kf="C13-unpickle-falsy-builder" if not truthy else None)
                 except RecursionError:
                     raise
                 except Exception as ex:
@@ -1663,7 +1805,47 @@ def stream_nesting(ctx, n_docs):
                     open_names.append(nm)
                     markup += f"<{nm}>"
                     events.append("s:" + arg_tok(nm))
-        soup = e["BeautifulSoup"](markup, "html.parser", **kwargs)
+        # sometimes through a builder object that first offers prefixes of the document which are refused after their events
+        # were sent (elements, string containers among them, still open): BeautifulSoup.__init__'s retry loop
+        attempts = []
+        nrecipe = {"markup": markup, "config": cfg, "ops": []}
+        if r.random() < 0.45 and events:
+            bounds = [0]
+            for ev in events:       # markup offset after each event
+                pass
+            offs = []
+            pos_ = 0
+            for ev in events:
+                kind_, val_ = ev.split(":", 1)
+                txt = "".join(chr(int(x)) for x in val_.split(",")) if val_ != "-" else ""
+                if kind_ == "d":
+                    pos_ += len(txt)
+                elif kind_ == "s":
+                    pos_ += len(txt) + 2
+                else:
+                    pos_ += len(txt) + 3 if f"</{txt}>" == markup[pos_:pos_ + len(txt) + 3] else 0
+                offs.append(pos_)
+            cuts = []
+            for _ in range(r.choice((1, 1, 2))):
+                k_ = r.randrange(len(events))
+                cuts.append((k_, offs[k_]))
+            nrecipe["builder"] = {"kind": r.choice(("retry", "retry", "bool", "lencount")), "retry": [[c_, "feed"] for _, c_ in cuts]}
+            attempts = [events[:k_ + 1] for k_, _ in cuts]
+        try:
+            soup = make_soup(nrecipe, kwargs)
+        except PoisonedAccepted:
+            nrecipe.pop("builder", None)
+            attempts = []
+            soup = make_soup(nrecipe, kwargs)
+        if attempts:
+            ctx.count("nesting:with-refused-attempts")
+            if any(any(ev2.startswith("s:") and "".join(chr(int(x)) for x in ev2[2:].split(",")) in sc for ev2 in a_) for a_ in attempts):
+                ctx.count("nesting:refused-attempt-opened-a-container")
+            bad_ = after_parse_failures(soup, sc)
+            if bad_ and sum(1 for v in ctx.violations if v["stream"] == "after-parse") < 4:
+                ctx.violation("after the document was built, soup.new_string() does not make a plain NavigableString (something of the "
+                              "parse, or of a refused attempt, is still open)", case={"op": "after-parse", "recipe": dict(nrecipe)},
+                              expected="NavigableString", observed=bad_[0][1], stream="after-parse")
         strs = [x for x in all_nodes(soup) if isinstance(x, NS)]
         by_text = {str(x): type(x).__name__ for x in strs}
         got = [(t, by_text.get(t, "<missing>")) for t, _ in marks]
@@ -1673,18 +1855,22 @@ def stream_nesting(ctx, n_docs):
         ctx.count("nesting:config-" + cfg)
         if after_overlap and marks:
             ctx.count("nesting:text-with-a-closed-overlapping-element")
-        case = {"op": "nesting", "markup": markup, "config": cfg, "marks": [list(m) for m in marks]}
+        case = {"op": "nesting", "markup": markup, "config": cfg, "marks": [list(m) for m in marks], "builder": nrecipe.get("builder")}
         if got != marks and sum(1 for v in ctx.violations if v["stream"] == "nesting") < 4:
             ctx.violation("parsed text does not get the class of the innermost string container open at that point", case=case,
                           expected=[m[1] for m in marks], observed=[g[1] for g in got], stream="nesting")
-        recipe = {"markup": markup, "config": cfg, "ops": []}
+        recipe = nrecipe
         for t in all_nodes(soup):
             if is_tag(t):
                 set_exp(t, exp_for(t, sc))
         check_ancestor_rule(ctx, recipe, soup, sc, "nesting")
         live_sc = soup.builder.string_containers
         live_pres = soup.builder.preserve_whitespace_tags
-        lines.append(f"c13 parsecls {sc_tok(live_sc)} {';'.join(arg_tok(n) for n in sorted(live_pres)) or '-'} {';'.join(events) or '-'}")
+        if attempts:
+            atts = "|".join(["R:" + (";".join(a_) or "-") for a_ in attempts] + ["A:" + (";".join(events) or "-")])
+            lines.append(f"c13 parseloop {sc_tok(live_sc)} {';'.join(arg_tok(n) for n in sorted(live_pres)) or '-'} {atts}")
+        else:
+            lines.append(f"c13 parsecls {sc_tok(live_sc)} {';'.join(arg_tok(n) for n in sorted(live_pres)) or '-'} {';'.join(events) or '-'}")
         real.append(".".join(str(cls_code(type(x))) for x in strs) or "-")
         cases.append(case)
     rep = Driver().ask(lines)
@@ -2127,21 +2313,29 @@ def replay(path):
         print("implementation:", pretty(real))
         print("property demands:", pretty(want), "" if ident else "(and the very string objects of the tree)")
         return 0 if (real == want and ident) else 1
+    if c.get("op") == "after-parse":
+        soup, sc = build(c["recipe"])
+        bad = after_parse_failures(soup, sc)
+        print("markup:", ascii(c["recipe"]["markup"]), "config:", c["recipe"]["config"], "builder object:", c["recipe"].get("builder"))
+        print("type(soup.new_string('x')) after the parse:", type(soup.new_string("x")).__name__, "- property demands NavigableString;",
+              "string_container_stack:", [t.name for t in soup.string_container_stack])
+        return 1 if bad else 0
     if c.get("op") == "parse-classes":
         soup, sc = build(c["recipe"])
         NS = E()["el"].NavigableString
         got = [(type(s).__name__, o_isspace_strip(s)) for s in all_nodes(soup) if isinstance(s, NS)]
         want = [tuple(x) for x in c["expected_classes"]]
-        print("markup:", c["recipe"]["markup"])
+        print("markup:", ascii(c["recipe"]["markup"]), "config:", c["recipe"]["config"], "builder object:", c["recipe"].get("builder"))
         print("implementation:", got)
         print("property demands:", want)
         return 0 if got == want else 1
     if c.get("op") == "nesting":
         e = E()
         kwargs, sc = config_containers(c["config"])
-        soup = e["BeautifulSoup"](c["markup"], "html.parser", **kwargs)
+        soup = make_soup({"markup": c["markup"], "config": c["config"], "builder": c.get("builder")}, kwargs)
         by_text = {str(x): type(x).__name__ for x in all_nodes(soup) if isinstance(x, e["el"].NavigableString)}
-        print("markup:", c["markup"], "config:", c["config"], "string_containers:", sc, "preserve_whitespace_tags:", config_preserve(c["config"]))
+        print("markup:", c["markup"], "config:", c["config"], "string_containers:", sc, "preserve_whitespace_tags:", config_preserve(c["config"]),
+              "builder object:", c.get("builder"))
         bad = 0
         for t, want in c["marks"]:
             got = by_text.get(t, "<missing>")
@@ -2217,7 +2411,8 @@ def replay(path):
     if c.get("op") == "ancestor-rule":
         soup, sc = build(c["recipe"] if c["recipe"].get("post") else c["recipe"] | {"ops": []})
         bad = ancestor_rule_failures(soup, sc)
-        print("markup:", ascii(c["recipe"]["markup"]), "config:", c["recipe"]["config"])
+        print("markup:", ascii(c["recipe"]["markup"]), "config:", c["recipe"]["config"], "builder object:", c["recipe"].get("builder"),
+              "post:", c["recipe"].get("post"))
         for path, got, want in bad:
             print(f"string at path {path}: implementation class {got}, property demands {want}")
         return 1 if bad else 0
